@@ -17,7 +17,7 @@ pub fn scenario(seed: u64, campaign: &'static str, prop: &'static str, idx: u64)
         sc.env = super::c09::cors_env(&mut rng);
     }
     let n = rng.range(1, 6);
-    let targets = ["/file.txt", "/page.html", "/page", "/d/", "/d", "/big.bin", "/", "/missing.txt"];
+    let targets = ["/file.txt", "/page.html", "/page", "/d/", "/d", "/big.bin", "/", "/missing.txt", "/empty.txt", "/one.txt"];
     let faults: Vec<&str> = match campaign {
         "segmented" => vec!["seg"],
         "faulted" => swarm_subset(&mut rng, &["seg", "eof", "eof_mid", "read_err", "short_write", "write_zero", "write_err", "flush_err", "client_gone", "handler_err", "stall", "handler_panic"]),
